@@ -46,6 +46,7 @@ fn registry() -> Vec<PartDesc> {
     v.push(desc::<props::factory::C15>("exploration"));
     v.push(desc::<props::factory::C15Bucket>("exploration"));
     v.push(desc::<props::c16::C16>("exploration"));
+    v.push(desc::<props::c16::threads::C16Threads>("exploration"));
     v.push(desc::<props::c17::C17Fsm>("exploration"));
     v.push(desc::<props::c17::C17FsmX>("exploration"));
     v.push(desc::<props::c17::C17Adv>("exploration"));
@@ -59,6 +60,8 @@ fn registry() -> Vec<PartDesc> {
     v.push(desc::<props::c20::C20Remote>("exploration"));
     #[cfg(not(feature = "v2"))]
     v.push(foreign("C16", "e1-v2", "v2", "exploration"));
+    #[cfg(not(feature = "v2"))]
+    v.push(foreign("C16", "free-threads-v2", "v2", "exploration"));
     #[cfg(feature = "async-trait")]
     v.push(desc::<props::c01::C01At>("exploration"));
     #[cfg(not(feature = "async-trait"))]
